@@ -781,6 +781,7 @@ macro_rules! ext_mod {
                             spec.via = ext.via.clone();
                         }
                         let sres: RefCell<Vec<String>> = RefCell::new(vec![]);
+                        let sops: RefCell<Vec<crate::exec_conc::Call2>> = RefCell::new(vec![]);
                         let sfail: RefCell<Option<String>> = RefCell::new(None);
                         let g0 = RefCell::new(if ext.graphs.is_empty() { G::new() } else { std::mem::take(&mut ext.graphs[0]) });
                         let out = {
@@ -797,6 +798,7 @@ macro_rules! ext_mod {
                                 if let Some(sc) = &script {
                                     for op in crate::exec_cont::ops_at(sc, i) {
                                         sres.borrow_mut().push(script_op(st, &g0, &op));
+                                        sops.borrow_mut().push(op);
                                     }
                                 }
                             };
@@ -839,6 +841,19 @@ macro_rules! ext_mod {
                             let read_only = crate::exec_cont::parse_script(sc).iter().all(|e| e.ops.iter().all(|o| ["q", "s", "sd", "sp", "st", "so"].contains(&o.kind.as_str())));
                             if read_only && !ctx.oracles.is_empty() {
                                 let oname = if ctx.has("c20") { "c20".to_string() } else { ctx.oracles[0].clone() };
+                                // ... and what it sees is the graph as it is: a question or a nested traversal asked from inside
+                                // the closure has the answer it has when asked on its own (the graph has not changed)
+                                {
+                                    let g1 = RefCell::new(G::new());
+                                    let rs = sres.borrow();
+                                    for (op, r) in sops.borrow().iter().zip(rs.iter()) {
+                                        let alone = script_op(st, &g1, op);
+                                        if alone != *r {
+                                            ctx.fail(case, li, &oname, format!("`{}.{}.{}` asked from inside the closure of `{raw}` answered `{r}`, asked on its own it answers `{alone}` (the closure only looks at the graph)", op.kind, op.a, op.b));
+                                            break;
+                                        }
+                                    }
+                                }
                                 let mut plain = spec.clone();
                                 plain.script = None;
                                 let shown0 = show_search(&plain, &do_search(st, &plain, None));
